@@ -74,6 +74,57 @@ theorem ascii_compatible_law : ∀ r ∈ codecFacts, (r.tAscii = true ↔ r.decI
   simp only [asciiLaw, beq_iff_eq] at this
   rw [this]; simp
 
+/-! ### which bytes the test looks at — the structural reason behind the law, and who can tell a different choice -/
+
+/-- the 23 ASCII bytes the tool does NOT test: every C0 control but NUL EOT BEL BS HT LF VT FF CR ESC, and DEL -/
+theorem ascii_untested_bytes :
+    ((List.range 128).filter fun b => !interestingBytes.contains b) =
+      [1, 2, 3, 5, 6, 14, 15, 16, 17, 18, 19, 20, 21, 22, 23, 24, 25, 26, 28, 29, 30, 31, 127] := untested_pin
+
+/-- **the verdict looks at the tested bytes only**: for a codec that decodes byte by byte (`f`), `is_ascii_compatible_encoding` is
+    true iff `f` is the identity on `_interesting_ascii_bytes`; two such codecs that agree there get the same verdict, whatever
+    they do to the 23 other bytes (VISCII: six of them are letters) -/
+theorem ascii_verdict_bytewise (f g : Nat → Nat) (mo : Bool) :
+    isAsciiCompatible interestingStr (.text (interestingBytes.map f)) mo = .ok (decide (∀ b ∈ interestingBytes, f b = b)) ∧
+    ((∀ b ∈ interestingBytes, f b = g b) →
+      isAsciiCompatible interestingStr (.text (interestingBytes.map f)) mo = isAsciiCompatible interestingStr (.text (interestingBytes.map g)) mo) := by
+  refine ⟨isAsciiCompatible_bytewise f mo, fun h => ?_⟩
+  have : interestingBytes.map f = interestingBytes.map g := List.map_congr_left h
+  rw [this]
+
+/-- **who can tell a different test set** (every row of CodecFacts, verdicts recomputed by the translator over the changed
+    set): decoding all 128 bytes to themselves implies the tool's "yes"; the two readings differ exactly on the rows that one
+    added byte flips — VISCII (02 05 06 14 19 1E) and ISO-2022-KR (SO, SI), nothing else; removing ONE tested byte changes
+    a verdict only for `%` (cp864), `+` (UTF-7), `~` (HZ) and only from "no" to "yes" — any other single-byte narrowing of
+    `_interesting_ascii_bytes` is invisible on every codec this interpreter and the tool know (only `repertoire_pin` sees it) -/
+theorem ascii_test_set_sensitivity : ∀ r ∈ codecFacts,
+    (r.fullAsciiId = true → r.tAscii = true) ∧
+    ((r.tAscii = true ∧ r.fullAsciiId = false) ↔ r.addSens ≠ []) ∧
+    (r.dropSens ≠ [] → r.tAscii = false) ∧
+    r.addSens = expectedAdd r.codec ∧ r.dropSens = expectedDrop r.codec ∧
+    (∀ b ∈ r.dropSens, b ∈ interestingBytes) ∧ (∀ b ∈ r.addSens, b ∉ interestingBytes ∧ b < 128) := by
+  intro r hr
+  have h1 := all_rows readings_rows r hr
+  have h2 := all_rows sens_rows r hr
+  simp only [readingsLaw, Bool.and_eq_true, Bool.or_eq_true, Bool.not_eq_true', beq_iff_eq, List.all_eq_true,
+    List.contains_iff_mem, List.isEmpty_iff] at h1
+  simp only [sensLaw, Bool.and_eq_true, beq_iff_eq] at h2
+  obtain ⟨⟨⟨⟨a1, a2⟩, a3⟩, a4⟩, a5⟩ := h1
+  refine ⟨?_, ?_, ?_, h2.2, h2.1, a4, ?_⟩
+  · intro hf; rcases a1 with h | h
+    · rw [hf] at h; cases h
+    · exact h
+  · cases ht : r.tAscii <;> cases hf : r.fullAsciiId <;> cases ha : r.addSens <;> simp_all
+  · intro hd; rcases a3 with h | h
+    · exact (hd h).elim
+    · exact h
+  · intro b hb
+    have hm := a5 b hb
+    have hu := untested_pin
+    rw [← hu] at hm
+    simp only [List.mem_filter, List.mem_range, Bool.not_eq_true', List.contains_eq_mem, decide_eq_false_iff_not] at hm
+    exact ⟨hm.2, hm.1⟩
+
 /-- **unknown iff no usable text codec exists** (the registry has none, or it is not a text encoding, or it cannot be
     used: decoding the repertoire raises something other than UnicodeDecodeError) -/
 theorem unknown_law : ∀ r ∈ codecFacts, (r.tUnknown = true ↔ usable r = false) := by
